@@ -14,7 +14,9 @@ import (
 	"runtime"
 	"sort"
 	"strings"
+	"sync"
 	"sync/atomic"
+	"time"
 
 	"google.golang.org/grpc"
 	"google.golang.org/grpc/credentials"
@@ -333,6 +335,85 @@ func runC13(o *hx.Out, r *hx.Rand, thorough bool) {
 			hx.B(c.https), hx.Str(u.Host), hx.B(u.Port() != ""), hx.Str(strings.TrimSuffix(p.Addr.String(), "")), hx.B(c.https), hx.B(c.https)),
 			map[string]interface{}{"url": c.u, "peer": p.Addr.String()})
 	}
+	// concurrent calls to ONE method with DIFFERENT credentials whose token fetch takes a while: each request
+	// carries the metadata of its own call's credentials, and each credentials object is asked
+	for _, tn := range []string{"httpgrpc", "inprocgrpc"} {
+		for _, stream := range []bool{false, true} {
+			var mu sync.Mutex
+			seen := map[string]string{}
+			note := func(ctx context.Context) {
+				in, _ := metadata.FromIncomingContext(ctx)
+				mu.Lock()
+				seen[strings.Join(in.Get("who"), ",")] = strings.Join(in.Get("token"), ",")
+				mu.Unlock()
+			}
+			svc := &hx.Svc{Unary: func(ctx context.Context, req *hx.Msg) (*hx.Msg, error) { note(ctx); return &hx.Msg{}, nil },
+				Stream: func(kind string, ss grpc.ServerStream) error { note(ss.Context()); return nil }}
+			var ch grpc.ClientConnInterface
+			stop := func() {}
+			if tn == "httpgrpc" {
+				hs := httpgrpc.NewServer()
+				hs.RegisterService(hx.Desc(hx.SvcName), svc)
+				ts := httptest.NewServer(hs)
+				u, _ := url.Parse(ts.URL)
+				ch, stop = &httpgrpc.Channel{Transport: &http.Transport{}, BaseURL: u}, ts.Close
+			} else {
+				ic := &inprocgrpc.Channel{}
+				ic.RegisterService(hx.Desc(hx.SvcName), svc)
+				ch = ic
+			}
+			var wg sync.WaitGroup
+			asked := make([]int32, 4)
+			for i := 0; i < 4; i++ {
+				wg.Add(1)
+				go func(i int) {
+					defer wg.Done()
+					time.Sleep(time.Duration(i) * 15 * time.Millisecond) // each enters while the previous fetch is running
+					cr := tokenCreds{token: fmt.Sprint("token-of-", i), delay: 80 * time.Millisecond, asked: &asked[i]}
+					ctx := metadata.AppendToOutgoingContext(context.Background(), "who", fmt.Sprint("caller-", i))
+					if stream {
+						cs, err := ch.NewStream(ctx, hx.StreamDescOf("BD"), "/verif.Svc/BD", grpc.PerRPCCredentials(cr))
+						if err == nil {
+							cs.CloseSend()
+							cs.RecvMsg(&hx.Msg{})
+							runtime.KeepAlive(cs)
+						}
+					} else {
+						ch.Invoke(ctx, "/verif.Svc/U", &hx.Msg{}, &hx.Msg{}, grpc.PerRPCCredentials(cr))
+					}
+				}(i)
+			}
+			wg.Wait()
+			stop()
+			bad := ""
+			for i := 0; i < 4; i++ {
+				if got := seen[fmt.Sprint("caller-", i)]; got != fmt.Sprint("token-of-", i) {
+					bad += fmt.Sprintf(" caller-%d's request carried %q;", i, got)
+				}
+				if atomic.LoadInt32(&asked[i]) == 0 {
+					bad += fmt.Sprintf(" caller-%d's credentials were never asked;", i)
+				}
+			}
+			if bad != "" {
+				o.Violate("concurrent calls with different per-RPC credentials did not each carry their own credentials' metadata",
+					map[string]interface{}{"transport": tn, "stream": stream, "calls": "four concurrent calls to one method, each with its own credentials whose fetch takes 80 ms", "handler_saw": seen}, bad, "caller-i carries token-of-i")
+			}
+		}
+	}
 	o.Stats["exhaustive_configurations"] = "{http,https,inproc} x {unary,stream} x {no creds, 5 credential maps x {secure,not}, failing x {secure,not}} x {peer option or not}"
 	o.Shard = 120
 }
+
+// tokenCreds are per-RPC credentials of one user whose token takes a while to fetch
+type tokenCreds struct {
+	token string
+	delay time.Duration
+	asked *int32
+}
+
+func (c tokenCreds) GetRequestMetadata(context.Context, ...string) (map[string]string, error) {
+	atomic.AddInt32(c.asked, 1)
+	time.Sleep(c.delay)
+	return map[string]string{"token": c.token}, nil
+}
+func (tokenCreds) RequireTransportSecurity() bool { return false }
